@@ -288,6 +288,17 @@ def oracle(case, r):
     out = []
     rb = rbgen.compile_rb(case["ptext"], case["otext"], case["vendor"])
     rules = rb["patching"]
+    # which lines the rulebook knows must not depend on the code under test: the real restriction (what apply_diff_rb
+    # keeps) against the rule language's reading of the same rule text
+    try:
+        rr = rbgen.ref_rules(case["ptext"])
+        for t in [case["old"]] + case["targets"]:
+            mine, ref = restricted(t, rules), rbgen.ref_restricted(t, rr)
+            if mine != ref:
+                return [dict(sig="rulebook-knows-other-lines", what="the rulebook keeps %r of a configuration, the rule "
+                             "language says it knows %r" % (mine[:3], ref[:3]))]
+    except rbgen.RefOutside:
+        pass
     if not in_domain(case, rules):
         return []
     for i, s in enumerate(r["full"]):
